@@ -82,6 +82,14 @@ def gen_case(g, prop):
         if output == 'nested': output = 'abs'
     if inp.get('spelled') in ('dot', 'updir') and output == 'rel': output = 'abs'   # a relative output would resolve against the input directory
     case = dict(inputs=[inp], settings=st, patterns=pats, output=output)
+    if output == 'nested' and inp['kind'] == 'dir' and g.random() < 0.6:
+        # the output directory inside the input tree is named like the beginning of a sibling directory (doc next to doctest/, docs/):
+        # comparing the two paths character by character instead of component by component would mix them up
+        subs = [c['name'] for c in children if 'children' in c and len(c['name']) >= 2]
+        taken = {c['name'].lower() for c in children}
+        if subs:
+            d = g.choice(subs); cand = d[:g.randint(1, len(d) - 1)]
+            if cand.lower() not in taken and cand not in ('.', '..'): case['nested_name'] = cand
     if prop == 'C12' and inp['kind'] == 'dir' and g.random() < 0.3:
         # an explicit @module name spelled exactly like the module name (or title) CMinx would derive anyway
         cands = []
@@ -271,7 +279,7 @@ def check_case(prop, case, sb, drv, key, out, n_orders=3):
                 diff = sorted(set(r2['files']) ^ set(files)) or [p for p in files if files[p] != r2['files'].get(p)]
                 vios.append(dict(kind='output depends on the directory listing order', paths=diff[:6],
                                  order=[c['name'] for c in c2['inputs'][0]['children']])); break
-    if prop == 'C18' and real['status'] == 'ok' and case.get('output') == 'abs' and inp['kind'] == 'dir' and key[-1] % 2 == 0:
+    if prop in ('C18', 'C13') and real['status'] == 'ok' and case.get('output') == 'abs' and inp['kind'] == 'dir' and key[-1] % 2 == 0:
         # the output directory already holds the pages of an earlier run made with other settings
         old = copy.deepcopy(case); old['settings'] = dict(old['settings'], prefix='OLDPFX', ext_titles=not st.get('ext_titles', False))
         T.run_real(sb.dir, old, variant='stale')
